@@ -373,7 +373,7 @@ def exTracker : RequestTracker :=
     GetTrackedRequest := fun _ idx => if idx = "idx-1" then .ok (some { Index := "idx-1", SAMLRequestID := "id-1", URI := "/app/page" }, none) else .ok (none, some "http.ErrNoCookie") }
 def exM : Middleware :=
   { (default : Middleware) with
-    ServiceProvider := { AllowIDPInitiated := false, DefaultRedirectURI := "/" }
+    ServiceProvider := { (default : ServiceProvider) with AllowIDPInitiated := false, DefaultRedirectURI := "/" }
     OnError := some (fun _ _ _ => .ok ())
     RequestTracker := exTracker
     Session := { CreateSession := fun _ _ _ => .ok none }
@@ -386,7 +386,7 @@ def exEnvM (relay : String) : Env :=
 example : ServeACS (exEnvM "idx-1") exM ⟨0⟩ (some ⟨0⟩) = .ok [evStop "idx-1", evSession, evRedirect "/app/page"] := by decide
 example : ServeACS (exEnvM "") exM ⟨0⟩ (some ⟨0⟩) = .ok [evSession, evRedirect "/"] := by decide
 example : ServeACS (exEnvM "https://evil.example/") exM ⟨0⟩ (some ⟨0⟩) = .ok [evError (some "http.ErrNoCookie")] := by decide
-example : ServeACS (exEnvM "https://evil.example/") { exM with ServiceProvider := { AllowIDPInitiated := true, DefaultRedirectURI := "/" } } ⟨0⟩ (some ⟨0⟩)
+example : ServeACS (exEnvM "https://evil.example/") { exM with ServiceProvider := { (default : ServiceProvider) with AllowIDPInitiated := true, DefaultRedirectURI := "/" } } ⟨0⟩ (some ⟨0⟩)
     = .ok [evError (some "InvalidResponseError")] := by decide
 
 /-! ### the cookie request tracker (request_tracker_cookie.go `GetTrackedRequest`, `GetTrackedRequests`) -/
@@ -491,5 +491,74 @@ theorem getTrackedRequests_sound (env : Env) (t : CookieRequestTracker) (r : Opt
                 · simp [hi] at hst; subst hst; exact hI
         · have : hasPrefix c.Name t.NamePrefix = false := by simpa using hp
           simp [this] at hst; subst hst; exact hI
+
+/-! ### which binding starts a flow (middleware.go `HandleStartAuthFlow`, from `var binding, bindingLocation string` up to
+    `authReq, err :=`; translated twice, once yielding `binding`, once `bindingLocation`) -/
+
+def redirectBinding : String := "urn:oasis:names:tc:SAML:2.0:bindings:HTTP-Redirect"
+def postBinding : String := "urn:oasis:names:tc:SAML:2.0:bindings:HTTP-POST"
+
+/-- C12 / C13: the configured binding if there is one; otherwise HTTP-Redirect exactly when the IdP publishes a location for it,
+    else HTTP-POST — and the location is the one the IdP publishes for the binding that was chosen -/
+theorem startFlow_binding (env : Env) (m : Middleware) (b loc : String)
+    (hb : startFlowBinding env m = .ok (b, none)) (hl : startFlowLocation env m = .ok (loc, none)) :
+    env.GetSSOBindingLocation m.ServiceProvider b = .ok loc ∧
+    ((m.Binding ≠ "" ∧ b = m.Binding) ∨
+     (m.Binding = "" ∧ b = redirectBinding ∧ loc ≠ "") ∨
+     (m.Binding = "" ∧ b = postBinding ∧ env.GetSSOBindingLocation m.ServiceProvider redirectBinding = .ok "")) := by
+  unfold startFlowBinding at hb
+  unfold startFlowLocation at hl
+  simp only [Outcome.ok_bind', Outcome.pure_eq_ok] at hb hl
+  by_cases hm : m.Binding = ""
+  · have hmb : (m.Binding != "") = false := by simp [hm]
+    simp only [hmb, Bool.false_eq_true, if_false] at hb hl
+    cases hr : env.GetSSOBindingLocation m.ServiceProvider "urn:oasis:names:tc:SAML:2.0:bindings:HTTP-Redirect" with
+    | err e => simp [hr] at hb
+    | panic p => simp [hr] at hb
+    | ok l1 =>
+      simp only [hr, Outcome.ok_bind'] at hb hl
+      by_cases he : l1 = ""
+      · subst he
+        simp only [BEq.rfl, if_true] at hb hl
+        cases hp : env.GetSSOBindingLocation m.ServiceProvider "urn:oasis:names:tc:SAML:2.0:bindings:HTTP-POST" with
+        | err e => simp [hp] at hb
+        | panic p => simp [hp] at hb
+        | ok l2 =>
+          simp [hp] at hb hl
+          subst hb; subst hl
+          exact ⟨hp, Or.inr (Or.inr ⟨hm, rfl, hr⟩)⟩
+      · have hne : (l1 == "") = false := by simpa using he
+        simp [hne] at hb hl
+        subst hb; subst hl
+        exact ⟨hr, Or.inr (Or.inl ⟨hm, rfl, he⟩)⟩
+  · have hmb : (m.Binding != "") = true := by simpa using hm
+    simp only [hmb, if_true] at hb hl
+    cases hr : env.GetSSOBindingLocation m.ServiceProvider m.Binding with
+    | err e => simp [hr] at hb
+    | panic p => simp [hr] at hb
+    | ok l1 =>
+      simp [hr] at hb hl
+      subst hb; subst hl
+      exact ⟨hr, Or.inl ⟨hm, rfl⟩⟩
+
+/-! ### what `samlsp.New` makes of its options (new.go `DefaultServiceProvider` from `var forceAuthn *bool` on; fields of the
+    returned `saml.ServiceProvider` whose values are keys, certificates, clients or URLs are outside the translation) -/
+
+/-- C04 / C17: IdP-initiated login is allowed exactly when the option says so — no other option (a default redirect target,
+    request signing, forced authentication, an entity ID, logout bindings) has a say; the default redirect target is the
+    configured one, `/` when none is; requests are signed exactly when `SignRequest` is set -/
+theorem defaultServiceProvider_flags (env : Env) (opts : Options) :
+    ∃ sp, defaultServiceProviderTail env opts = .ok sp ∧
+      sp.AllowIDPInitiated = opts.AllowIDPInitiated ∧
+      sp.DefaultRedirectURI = (if opts.DefaultRedirectURI = "" then "/" else opts.DefaultRedirectURI) ∧
+      sp.SignatureMethod = (if opts.SignRequest = true then env.defaultSigningMethodOfKey else "") ∧
+      sp.EntityID = opts.EntityID ∧
+      sp.ForceAuthn = (if opts.ForceAuthn = true then some true else none) := by
+  unfold defaultServiceProviderTail
+  simp only [Outcome.pure_eq_ok, Outcome.ok_bind']
+  cases hf : opts.ForceAuthn <;> cases hs : opts.SignRequest <;>
+    by_cases hd : opts.DefaultRedirectURI = "" <;>
+    by_cases hl : opts.LogoutBindings = [] <;>
+    simp [hf, hs, hd, hl]
 
 end SamlVerif.TransMiddleware
